@@ -653,3 +653,66 @@ func noStaleVerdicts(ctx *core.Ctx, r *core.Report, fns []*ssa.Function, pkgs ..
 	}
 	return n
 }
+
+// ---------------------------------------------------------------------------
+// visited-guard-only (C02, C14)
+//
+// `if _, done := x.visited[k]; done { return nil }` ends the work for k because
+// it was done before. That early success may depend on nothing else: joined
+// with another condition (`done || nothing-to-do-here`) the function also
+// returns for items it never handled, skipping everything below — for
+// compileImport the walk into the module's own imports.
+// ---------------------------------------------------------------------------
+
+func visitedGuardOnly(ctx *core.Ctx, r *core.Report, fns []*ssa.Function) int {
+	n := 0
+	for _, f := range fns {
+		core.Instrs(f, func(b *ssa.BasicBlock, in ssa.Instruction) {
+			ifi, ok := in.(*ssa.If)
+			if !ok {
+				return
+			}
+			ex, ok := ifi.Cond.(*ssa.Extract)
+			if !ok || ex.Index != 1 {
+				return
+			}
+			lk, ok := ex.Tuple.(*ssa.Lookup)
+			if !ok || !lk.CommaOk {
+				return
+			}
+			owner, fld, _, isField := mapFieldOf(lk.X)
+			if !isField {
+				return
+			}
+			// the same table is filled in this function (a visited set, not a lookup of input)
+			filled := false
+			core.Instrs(f, func(_ *ssa.BasicBlock, in2 ssa.Instruction) {
+				if mu, ok := in2.(*ssa.MapUpdate); ok {
+					if o2, f2, _, ok := mapFieldOf(mu.Map); ok && o2 == owner && f2 == fld {
+						filled = true
+					}
+				}
+			})
+			if !filled {
+				return
+			}
+			hit := b.Succs[0]
+			// the hit side returns success at once
+			var ret *ssa.Return
+			if len(hit.Instrs) > 0 {
+				ret, _ = hit.Instrs[len(hit.Instrs)-1].(*ssa.Return)
+			}
+			if ret == nil {
+				return
+			}
+			ops := core.RetOperands(ret)
+			if len(ops) == 0 || !core.IsNilConst(ops[len(ops)-1]) {
+				return
+			}
+			n++
+			r.Ob("visited-guard-only", core.FnName(f)+"/"+owner.Obj().Name()+"."+fld, ctx.Pos(ifi.Pos()), len(hit.Preds) == 1,
+				"the early `already done` return of "+core.FnName(f)+" is also taken on another condition than the lookup in "+owner.Obj().Name()+"."+fld+": items that were never handled leave the function before the work below is done (for an imported module without identities of its own: its imports are never walked, so identities derived further down never reach their base)")
+		})
+	}
+	return n
+}
